@@ -19,7 +19,7 @@ Stage 2 (over the whole model, loads included unless said otherwise):
 * `reeval_runs_nothing` — after a successful evaluation of a kept function on a real store, every evaluation whose
   analysis gives the root the same signature (identical re-evaluation, another process, a revert back to this version,
   the same code elsewhere) executes no body at all and returns the stored value.
-* `reeval_recomputes_nothing` (load-free fragment, over a `Universe`, real store) — also when the root is *not* kept
+* `reeval_recomputes_nothing` (pipeline model incl. loads, over a `Universe`, real store) — also when the root is *not* kept
   (`dds.eval` of a plain function): after a successful evaluation, an evaluation — of any version, any request —
   whose root gets the same signature finds every kept call of its tree in the store and writes no blob: no kept function is
   recomputed. It rests on `Closure.lean`: the blob set is closed under kept sub-calls (`Closed`, preserved by every
